@@ -2,6 +2,7 @@ package main
 
 import (
 	"fmt"
+	"math"
 
 	"github.com/lyraproj/pcore/px"
 	"github.com/lyraproj/pcore/types"
@@ -80,6 +81,8 @@ func newArgPool() []*PVal {
 		vHash(vStr("from"), vStr("11"), vStr("radix"), vInt(2)), vHash(vStr("a"), vInt(1)), vHash(vStr("a"), vStr("x")), vHash(),
 		vHash(vStr("from"), vFloat(-0.5), vStr("abs"), vBool(true)),
 		vType("Integer"), vType("String[2]"),
+		vFloat(0), vFloat(math.Copysign(0, -1)), vStr("YES"), vStr("N"), vStr("False"), vStr("y"), vStr("no"), vStr("nO"),
+		vStr("TRUE"), vStr("tru"), vStr("\u212a"), vArr(vBool(true)),
 	}
 }
 
